@@ -15,6 +15,19 @@ PROPS = {
                     4: 'encoder-accepts-outside-domain', 5: 'size-table', 6: 'buffer-size'},
         'trusted': ['hook net/blockwise/export_verif.go (build tag verif) exposing the constants read by gen'],
         'assumptions': ['uint32/int64 arithmetic of Go modelled in Z with explicit mod 2^32'],
+        'level_text': 'Coq theorems (Properties/C19.v): decode total on all 24-bit values, encode total on szx 0-7 x 20-bit NUM, refusal outside, mutual inverses, size table and BERT buffer, stated over constants regenerated from the source; model tied to the Go functions by differential evaluation (boundary/random values, checksum sweeps; whole 2^24 / 18x2^20 domains in thorough).',
+        'level_note': 'Trusted: Coq kernel + vm_compute, the constant generator, the harness; Go integer semantics modelled in Z with explicit uint32 wrap.',
         'explanation': 'Theorems: decode/encode total on the RFC 7959 domain, refusal outside, mutual inverses, size table, BERT buffer; stated over constants regenerated from the source. Correspondence: model vs EncodeBlockOption/DecodeBlockOption/SZX.Size/bufferSize on boundary+random values and checksum sweeps.',
     },
+    'C20': {
+        'run_vo': 'NoResp/Run.vo', 'props_vo': 'Properties/C20.vo', 'level': 'proof',
+        'classes': {1: 'suppressed-class-accepted', 2: 'unsuppressed-class-refused', 3: 'writer-differs-from-rfc'},
+        'trusted': [],
+        'assumptions': ['uint32 bit operations of Go modelled with Z.land/Z.shiftl on non-negative Z'],
+        'level_text': 'Coq theorems (Properties/C20.v): the decision equals the RFC 7967 class/bit rule for every code and every (unbounded) value; the response writer refuses exactly per the first No-Response option. Model tied to IsNoResponseCode and ResponseWriter.SetResponse by differential evaluation, exhaustive over 256 codes x values 0..63.',
+        'level_note': 'Trusted: Coq kernel + vm_compute, the harness. The wire clause (bare ACK / nothing on the wire) is covered by the datagram connection model of C05.',
+        'explanation': 'Theorems: IsNoResponseCode model equals the RFC 7967 class/bit decision for every code and every value (unbounded), only bits 1,3,4 matter, other classes always pass, the response writer refuses exactly per the first No-Response option. Correspondence: exhaustive bit tables for all 256 codes x values 0..63, boundary/random 32-bit values, 16-bit codes, ResponseWriter.SetResponse over generated request option lists.',
+    },
 }
+
+NOT_APPLICABLE = {}
